@@ -1176,30 +1176,45 @@ class Parser:
         py_version: tuple[int, ...] | None = None,
         verbose: bool = False,
     ) -> ast.Module | None:
-        """Parse a file or string."""
-        # decoded as CPython decodes a source file: UTF-8 unless a coding declaration (PEP 263) says otherwise, and a UTF-8
-        # byte order mark is not part of the source
-        with tokenize.open(path) as f:
-            lines: dict[int, str] = {}
+        """Parse a file."""
+        # read in one piece (the path may be readable only once: a pipe, /dev/stdin) and decoded as CPython decodes a source
+        # file: UTF-8 unless a coding declaration (PEP 263) says otherwise, a UTF-8 byte order mark is not part of the source
+        source = cls._decode_source(path.read_bytes(), path.name)
+        tok_stream = generate_tokens(io.StringIO(source, newline=None).readline)
+        tokenizer = Tokenizer(tok_stream, verbose=verbose, path=str(path))
+        tokenizer._lines = dict(enumerate(io.StringIO(source, newline=None).readlines(), 1))
+        parser = cls(
+            tokenizer,
+            verbose=verbose,
+            filename=path.name,
+            py_version=py_version,
+        )
+        return parser.parse("file")  # type: ignore
 
-            def readline() -> str:
-                # keep what was read: error texts and '=' debug fields quote source lines, and the path may be
-                # readable only once (a pipe, /dev/stdin)
-                line = f.readline()
-                if line:
-                    lines[len(lines) + 1] = line
-                return line
-
-            tok_stream = generate_tokens(readline)
-            tokenizer = Tokenizer(tok_stream, verbose=verbose, path=str(path))
-            tokenizer._lines = lines
-            parser = cls(
-                tokenizer,
-                verbose=verbose,
-                filename=path.name,
-                py_version=py_version,
-            )
-            return parser.parse("file")  # type: ignore
+    @staticmethod
+    def _decode_source(data: bytes, filename: str) -> str:
+        """The text of a source file, or a SyntaxError that says where the bytes are no text."""
+        # the declaration is looked for in the first two lines, whatever the line ends are (tokenize.detect_encoding
+        # by itself splits at "\\n" only, so a comment of a CR-only file would be searched to its end)
+        head = re.split(rb"\r\n|\r|\n", data, maxsplit=2)[:2]
+        lines = iter([line + b"\n" for line in head])
+        try:
+            encoding, _ = tokenize.detect_encoding(lambda: next(lines, b""))
+            return data.decode(encoding)
+        except (SyntaxError, LookupError, UnicodeError) as err:
+            at = err.start if isinstance(err, UnicodeDecodeError) else 0
+            if isinstance(err, UnicodeDecodeError):
+                message = f"(unicode error) {err}"
+            elif isinstance(err, SyntaxError):
+                message = str(err.msg)
+                declared = [i for i, line in enumerate(head) if re.search(rb"coding[:=]", line)]
+                at = sum(len(line) + 1 for line in head[: declared[-1]]) if declared else 0
+            else:
+                message = f"encoding problem: {err}"
+            before = re.split(rb"\r\n|\r|\n", data[:at])
+            text = re.split(rb"\r\n|\r|\n", data[at - len(before[-1]) :], maxsplit=1)[0].decode("utf-8", "replace")
+            column = len(before[-1].decode("utf-8", "replace")) + 1
+            raise SyntaxError(message, (filename, len(before), column, text + "\n", len(before), column + 1)) from None
 
     @classmethod
     def parse_string(
